@@ -1,6 +1,6 @@
 (** C12 - assemble / clear / backport / delete / write round-trips preserve the model.
 
-    The statements are about the state machine of Model/C12_MeshLife.v with the three repairs in
+    The statements are about the state machine of Model/C12_MeshLife.v with the four repairs in
     ([fixed]); they hold for every value of the constant tables ([tb]), every store of operations and
     every history.  The model is tied to the working tree by the history correspondence of the check
     (model evaluated inside Coq on the histories the implementation was run on) and by the tables of
@@ -85,8 +85,9 @@ Definition C12_assemble_geo_stmt : Prop :=
 (** a second write gives the same file and leaves the same state - for every mesh: axes chopped by the
     user (one or several chops) and axes whose gradings and chops are PROPAGATED from neighbouring blocks
     (WirePropagateManager.copy_neighbours / propagate_grading, Axis.copy_grading,
-    BlockList.propagate_gradings: Model/Propagate.v run from the state the first write left,
-    Model/C12_Regrade.v).  Any number of blocks, any sharing of vertices, any state before the first write.
+    BlockList.propagate_gradings: Model/Propagate.v).  Any number of blocks, any sharing of vertices, any
+    state before the first write.  The model follows the repaired code (fixes/C12-4.diff, /repo 79421ab):
+    BlockList.grade_blocks resets every wire manager before it grades ([C12_Regrade.grade]).
     [write] iterates coincident wires / neighbour axes in the insertion order of the code; the second
     statement is the same for EVERY iteration order. *)
 Definition C12_write_idempotent_stmt : Prop :=
@@ -94,27 +95,49 @@ Definition C12_write_idempotent_stmt : Prop :=
 Definition C12_write_idempotent_any_order_stmt : Prop :=
   forall orc tb s s2 ev, write_with orc fixed tb s = Ok s2 ev -> write_with orc fixed tb s2 = Ok s2 ev.
 
-(** the heart of it, on the propagation model itself: a grade that ends without error - from the state
-    assemble leaves or from any other - is followed by a grade that ends without error and changes no wire
-    of the mesh and no axis ([eqin]: equal gradings on every wire of every block) *)
-Definition C12_grade_twice_stmt : Prop :=
+(** what the repair establishes: the result of Mesh.grade is a function of the block list, the user's chops
+    and the iteration orders only - from ANY two states of wire gradings and copied chops (left by earlier
+    writes, by nothing, by anything) grade gives the same result; and it is the first run.
+    Lifted to write: replacing the gradings the blocks hold by anything changes neither the file nor the
+    state after the write.  This covers write; move vertices; write as well: vertex positions and edge
+    lengths are no input of grade in this count model (they are inputs of the payload model of C04, where a
+    count can follow a length; there the reset makes the repeated grade recompute from the current lengths). *)
+Definition C12_grade_state_independent_stmt : Prop :=
+  forall bs o_coin o_nbrs s1 s2,
+    C12_Regrade.grade bs o_coin o_nbrs s1 = C12_Regrade.grade bs o_coin o_nbrs s2
+    /\ C12_Regrade.grade bs o_coin o_nbrs s1 = C12_Regrade.grade_no_reset bs o_coin o_nbrs true (Propagate.init bs).
+Definition C12_write_forgets_gradings_stmt : Prop :=
+  forall orc tb s G A, is_assembled s = true ->
+    write_with orc fixed tb (with_gradings s G A) = write_with orc fixed tb s.
+
+(** THE CODE BEFORE THE REPAIR (grade_no_reset: chopped axes re-add their chops, un-chopped axes keep the chops
+    they copied, wires keep their gradings, copy_neighbours copies again from every defined coincident wire):
+    for chops that fix a count it was idempotent all the same - a grade that ends without error, from the state
+    assemble leaves or from any other, is followed by a grade that ends without error and changes no wire
+    of the mesh and no axis ([eqin]: equal gradings on every wire of every block).  This is why the stale state
+    was invisible for count-only chops and showed only with expansions or with counts that follow lengths. *)
+Definition C12_grade_twice_without_reset_stmt : Prop :=
   forall bs o_coin o_nbrs s0 s,
-    C12_Regrade.grade bs o_coin o_nbrs true s0 = C12_Regrade.GOk s ->
-    exists s', C12_Regrade.grade bs o_coin o_nbrs true s = C12_Regrade.GOk s'
+    C12_Regrade.grade_no_reset bs o_coin o_nbrs true s0 = C12_Regrade.GOk s ->
+    exists s', C12_Regrade.grade_no_reset bs o_coin o_nbrs true s = C12_Regrade.GOk s'
                /\ C12_Regrade.eqin bs s' s /\ Propagate.ach s' = Propagate.ach s.
+Definition C12_write_idempotent_without_reset_stmt : Prop :=
+  forall orc tb s s2 ev,
+    write_with orc before_reset tb s = Ok s2 ev -> write_with orc before_reset tb s2 = Ok s2 ev.
 
 (** the error [E_model] (fuel of the propagation loop, oracle not an ordering) is an artefact of the model
     that never shows *)
 Definition C12_write_no_model_error_stmt : Prop :=
   forall c tb s, write c tb s <> Err E_model.
 
-(** SCOPE of the three statements above: chops that fix a count (every total expansion is 1).  With
-    expansions the code compares gradings of coincident wires up to constants.TOL (Grading.__eq__), and
-    copy_neighbours lets the LAST defined coincident wire win: a wire that took its grading from the only
-    neighbour defined at its turn in the first run takes, in the second run, the tolerance-equal grading
-    of a neighbour graded later.  On the payload model of C04 (Model/C04_Payload.v: rational expansions,
-    tolerance check) exact idempotence is FALSE; the witness is the mesh of the reproduction in
-    notes/C12.md (four boxes, expansions 2 and 2 + 1e-8): *)
+(** THE DEFECT REPAIRED BY fixes/C12-4.diff, beyond count-only chops: with expansions the code compares gradings
+    of coincident wires up to constants.TOL (Grading.__eq__), and copy_neighbours lets the LAST defined
+    coincident wire win: a wire that took its grading from the only neighbour defined at its turn in the
+    first run took, in the un-reset second run, the tolerance-equal grading of a neighbour graded later.
+    On the payload model of C04 (Model/C04_Payload.v: rational expansions, tolerance check) exact idempotence
+    of the UN-RESET second run (C04's grade_blocks / propagate applied to the final state of the first) is
+    FALSE; the witness is the mesh of corpus/C12/repro_second_write_tolerance.py (four boxes, expansions 2 and
+    2 + 1e-8).  With the reset the second run is [C04_Payload.final] again - the first run. *)
 Definition C12_second_write_exact_with_expansions_stmt : Prop :=
   forall bs tau eor o_coin o_nbrs s s',
     C04_Payload.final bs eor o_coin o_nbrs = Some s ->
@@ -186,8 +209,19 @@ Proof. exact write_idempotent. Qed.
 Theorem C12_write_idempotent_any_order : C12_write_idempotent_any_order_stmt.
 Proof. exact write_with_idempotent. Qed.
 
-Theorem C12_grade_twice : C12_grade_twice_stmt.
+Theorem C12_grade_state_independent : C12_grade_state_independent_stmt.
+Proof.
+  intros bs oc on s1 s2. split; [apply C12_Regrade.grade_state_independent | apply C12_Regrade.grade_is_first_run].
+Qed.
+
+Theorem C12_write_forgets_gradings : C12_write_forgets_gradings_stmt.
+Proof. exact write_forgets_gradings. Qed.
+
+Theorem C12_grade_twice_without_reset : C12_grade_twice_without_reset_stmt.
 Proof. exact C12_Regrade.grade_twice. Qed.
+
+Theorem C12_write_idempotent_without_reset : C12_write_idempotent_without_reset_stmt.
+Proof. exact write_with_idempotent_before_reset. Qed.
 
 Theorem C12_write_no_model_error : C12_write_no_model_error_stmt.
 Proof. exact write_no_model_error. Qed.
@@ -246,7 +280,10 @@ Print Assumptions C12_delete_frame.
 Print Assumptions C12_assemble_geo.
 Print Assumptions C12_write_idempotent.
 Print Assumptions C12_write_idempotent_any_order.
-Print Assumptions C12_grade_twice.
+Print Assumptions C12_grade_state_independent.
+Print Assumptions C12_write_forgets_gradings.
+Print Assumptions C12_grade_twice_without_reset.
+Print Assumptions C12_write_idempotent_without_reset.
 Print Assumptions C12_write_no_model_error.
 Print Assumptions C12_second_write_exact_with_expansions_refuted.
 Print Assumptions C12_original_write_twice_refuted.
